@@ -16,10 +16,10 @@ open Wac Wac.Ast Wac.Lex Wac.Parse Wac.Spec.Grammar
 
 theorem mem_gPostfix {st : PState} {x : PostfixExpr} {r : List STok} :
     (x, r) ∈ gPostfix (abs st) ↔
-      (peekTok st = some .Dot ∧ peekTok (adv st) = some .Ident ∧ r = abs (adv (adv st)) ∧
+      (nextTok st = some .Dot ∧ nextTok (adv st) = some .Ident ∧ r = abs (adv (adv st)) ∧
         x = .Access ⟨z, identOf (tokAt (adv st)).text⟩) ∨
-      (peekTok st = some .OpenBracket ∧ peekTok (adv st) = some .String ∧
-        peekTok (adv (adv st)) = some .CloseBracket ∧ r = abs (adv (adv (adv st))) ∧
+      (nextTok st = some .OpenBracket ∧ nextTok (adv st) = some .String ∧
+        nextTok (adv (adv st)) = some .CloseBracket ∧ r = abs (adv (adv (adv st))) ∧
         x = .NamedAccess ⟨z, stringOf (tokAt (adv st)).text⟩) := by
   unfold gPostfix
   simp [mem_gId, mem_gString, and_assoc]
@@ -28,7 +28,7 @@ theorem parsePostfix_sound (n : Nat) (st : PState) (ps : List PostfixExpr) (st' 
     (h : parsePostfix n st = .ok (ps, st')) :
     Suf st' st ∧ 2 * ps.length + st'.toks.length ≤ st.toks.length ∧
       Many gPostfix (ps.map erasePostfix) (abs st) (abs st') ∧
-      peekTok st' ≠ some .Dot ∧ peekTok st' ≠ some .OpenBracket := by
+      nextTok st' ≠ some .Dot ∧ nextTok st' ≠ some .OpenBracket := by
   induction n generalizing st ps st' with
   | zero => simp [parsePostfix] at h
   | succ n ih =>
@@ -36,28 +36,28 @@ theorem parsePostfix_sound (n : Nat) (st : PState) (ps : List PostfixExpr) (st' 
     split at h
     · rename_i hd
       simp only [parseAccessExpr, Except.bind_eq_ok, Prod.exists, parseToken_eq_ok, parseIdent_eq_ok] at h
-      obtain ⟨a, st2, ⟨t1, st1, ⟨_, rfl, rfl⟩, id, st2', ⟨h2, rfl, rfl⟩, h3⟩, rest, st3, hrec, h4⟩ := h
+      obtain ⟨a, st2, ⟨t1, st1, ⟨hd, rfl, rfl⟩, id, st2', ⟨h2, rfl, rfl⟩, h3⟩, rest, st3, hrec, h4⟩ := h
       cases h3; cases h4
       obtain ⟨hs, hl, hm, hn⟩ := ih _ _ _ hrec
-      have l1 := len_of_peekTok hd
-      have l2 := len_of_peekTok h2
+      have l1 := len_of_nextTok hd
+      have l2 := len_of_nextTok h2
       refine ⟨hs.trans ((Suf.adv _).trans (Suf.adv _)), by simp; omega, ?_, hn⟩
       refine .cons (mem_gPostfix.mpr (.inl ⟨hd, h2, rfl, ?_⟩)) hm
       simp [erasePostfix, erase_identAt]
     · rename_i hd
       simp only [parseNamedAccessExpr, Except.bind_eq_ok, Prod.exists, parseToken_eq_ok, parseString_eq_ok] at h
-      obtain ⟨a, st2, ⟨t1, st1, ⟨_, rfl, rfl⟩, s, st2', ⟨h2, rfl, rfl⟩, t3, st3', ⟨h3, rfl, rfl⟩, h4⟩, rest, st3, hrec, h5⟩ := h
+      obtain ⟨a, st2, ⟨t1, st1, ⟨hd, rfl, rfl⟩, s, st2', ⟨h2, rfl, rfl⟩, t3, st3', ⟨h3, rfl, rfl⟩, h4⟩, rest, st3, hrec, h5⟩ := h
       cases h4; cases h5
       obtain ⟨hs, hl, hm, hn⟩ := ih _ _ _ hrec
-      have l1 := len_of_peekTok hd
-      have l2 := len_of_peekTok h2
-      have l3 := len_of_peekTok h3
+      have l1 := len_of_nextTok hd
+      have l2 := len_of_nextTok h2
+      have l3 := len_of_nextTok h3
       refine ⟨hs.trans ((Suf.adv _).trans ((Suf.adv _).trans (Suf.adv _))), by simp; omega, ?_, hn⟩
       refine .cons (mem_gPostfix.mpr (.inr ⟨hd, h2, h3, rfl, ?_⟩)) hm
       simp [erasePostfix, erase_stringAt]
     · rename_i hnd hnb
       cases h
-      exact ⟨Suf.refl _, by simp, .nil _, by simpa using hnd, by simpa using hnb⟩
+      exact ⟨Suf.refl _, by simp, .nil _, fun h => hnd (peekTok_of_nextTok h), fun h => hnb (peekTok_of_nextTok h)⟩
 
 /-! ### expressions: soundness -/
 
@@ -102,13 +102,13 @@ theorem parsePrimaryExpr_sound_step (hV : SemverAgree) (pf : Nat)
   · -- new
     rename_i hk
     simp only [Except.bind_eq_ok, Prod.exists, parseToken_eq_ok, parsePackageName_eq_ok] at h
-    obtain ⟨t1, st1, ⟨_, rfl, rfl⟩, pkg, st2, ⟨h2, hpkg, rfl⟩, t3, st3, ⟨h3, rfl, rfl⟩, args, st4, hargs,
+    obtain ⟨t1, st1, ⟨hk, rfl, rfl⟩, pkg, st2, ⟨h2, hpkg, rfl⟩, t3, st3, ⟨h3, rfl, rfl⟩, args, st4, hargs,
       t5, st5, ⟨h5, rfl, rfl⟩, h6⟩ := h
     cases h6
-    have l1 := len_of_peekTok hk
-    have l2 := len_of_peekTok h2
-    have l3 := len_of_peekTok h3
-    have l5 := len_of_peekTok h5
+    have l1 := len_of_nextTok hk
+    have l2 := len_of_nextTok h2
+    have l3 := len_of_nextTok h3
+    have l5 := len_of_nextTok h5
     have hagree := pkgNameAt_agree hV (tokAt (adv st))
     rw [hpkg] at hagree
     obtain ⟨hs4, hp4, hl4⟩ := parseDelimited_struct _ _ _ _
@@ -130,11 +130,11 @@ theorem parsePrimaryExpr_sound_step (hV : SemverAgree) (pf : Nat)
   · -- nested
     rename_i hk
     simp only [Except.bind_eq_ok, Prod.exists, parseToken_eq_ok] at h
-    obtain ⟨t1, st1, ⟨_, rfl, rfl⟩, inner, st2, hinner, t3, st3, ⟨h3, rfl, rfl⟩, h4⟩ := h
+    obtain ⟨t1, st1, ⟨hk, rfl, rfl⟩, inner, st2, hinner, t3, st3, ⟨h3, rfl, rfl⟩, h4⟩ := h
     cases h4
     obtain ⟨hs2, hl2, hm2⟩ := ihE _ _ _ hinner
-    have l1 := len_of_peekTok hk
-    have l3 := len_of_peekTok h3
+    have l1 := len_of_nextTok hk
+    have l3 := len_of_nextTok h3
     refine ⟨(Suf.adv _).trans (hs2.trans (Suf.adv _)), by omega, ?_⟩
     intro gf hgf
     obtain ⟨g, rfl⟩ : ∃ g, gf = g + 1 := ⟨gf - 1, by omega⟩
@@ -143,9 +143,9 @@ theorem parsePrimaryExpr_sound_step (hV : SemverAgree) (pf : Nat)
   · -- identifier
     rename_i hk
     simp only [Except.bind_eq_ok, Prod.exists, parseIdent_eq_ok] at h
-    obtain ⟨id, st1, ⟨_, rfl, rfl⟩, h2⟩ := h
+    obtain ⟨id, st1, ⟨hk, rfl, rfl⟩, h2⟩ := h
     cases h2
-    have l1 := len_of_peekTok hk
+    have l1 := len_of_nextTok hk
     refine ⟨Suf.adv _, by omega, ?_⟩
     intro gf hgf
     obtain ⟨g, rfl⟩ : ∃ g, gf = g + 1 := ⟨gf - 1, by omega⟩
@@ -154,24 +154,24 @@ theorem parsePrimaryExpr_sound_step (hV : SemverAgree) (pf : Nat)
 
 theorem parseInstantiationArgumentName_eq_ok {st st' : PState} {n : InstantiationArgumentName} :
     parseInstantiationArgumentName st = .ok (n, st') ↔
-      (peekTok st = some .Ident ∧ n = .Ident (identAt (tokAt st)) ∧ st' = adv st) ∨
-      (peekTok st = some .String ∧ n = .String (stringAt (tokAt st)) ∧ st' = adv st) := by
+      (nextTok st = some .Ident ∧ n = .Ident (identAt (tokAt st)) ∧ st' = adv st) ∨
+      (nextTok st = some .String ∧ n = .String (stringAt (tokAt st)) ∧ st' = adv st) := by
   unfold parseInstantiationArgumentName
   split
   · rename_i hk
-    simp only [Except.bind_eq_ok, Prod.exists, parseIdent_eq_ok, hk]
+    simp only [Except.bind_eq_ok, Prod.exists, parseIdent_eq_ok]
     constructor
-    · rintro ⟨id, st1, ⟨_, rfl, rfl⟩, h⟩; cases h; simp
-    · rintro (⟨_, rfl, rfl⟩ | ⟨h, _⟩)
-      · exact ⟨_, _, ⟨trivial, rfl, rfl⟩, rfl⟩
-      · simp at h
+    · rintro ⟨id, st1, ⟨h1, rfl, rfl⟩, h⟩; cases h; exact .inl ⟨h1, rfl, rfl⟩
+    · rintro (⟨h1, rfl, rfl⟩ | ⟨h, _⟩)
+      · exact ⟨_, _, ⟨h1, rfl, rfl⟩, rfl⟩
+      · rw [peekTok_of_nextTok h] at hk; cases hk
   · rename_i hk
-    simp only [Except.bind_eq_ok, Prod.exists, parseString_eq_ok, hk]
+    simp only [Except.bind_eq_ok, Prod.exists, parseString_eq_ok]
     constructor
-    · rintro ⟨id, st1, ⟨_, rfl, rfl⟩, h⟩; cases h; simp
-    · rintro (⟨h, _⟩ | ⟨_, rfl, rfl⟩)
-      · simp at h
-      · exact ⟨_, _, ⟨trivial, rfl, rfl⟩, rfl⟩
+    · rintro ⟨id, st1, ⟨h1, rfl, rfl⟩, h⟩; cases h; exact .inr ⟨h1, rfl, rfl⟩
+    · rintro (⟨h, _⟩ | ⟨h1, rfl, rfl⟩)
+      · rw [peekTok_of_nextTok h] at hk; cases hk
+      · exact ⟨_, _, ⟨h1, rfl, rfl⟩, rfl⟩
   · rename_i h1 h2
     simp
     constructor <;> intro h <;> simp_all
@@ -186,8 +186,8 @@ theorem parseInstantiationArgument_sound_step (pf : Nat)
   · -- `...`
     rename_i hk
     simp only [Except.bind_eq_ok, Prod.exists, parseToken_eq_ok] at h
-    obtain ⟨t1, st1, ⟨_, rfl, rfl⟩, h2⟩ := h
-    have l1 := len_of_peekTok hk
+    obtain ⟨t1, st1, ⟨hk, rfl, rfl⟩, h2⟩ := h
+    have l1 := len_of_nextTok hk
     split at h2
     · rename_i hf
       cases h2
@@ -198,7 +198,7 @@ theorem parseInstantiationArgument_sound_step (pf : Nat)
     · simp only [Except.bind_eq_ok, Prod.exists, parseIdent_eq_ok] at h2
       obtain ⟨id, st2, ⟨h3, rfl, rfl⟩, h4⟩ := h2
       cases h4
-      have l2 := len_of_peekTok h3
+      have l2 := len_of_nextTok h3
       refine ⟨(Suf.adv _).trans (Suf.adv _), by omega, ?_⟩
       intro gf hgf
       obtain ⟨g, rfl⟩ : ∃ g, gf = g + 1 := ⟨gf - 1, by omega⟩
@@ -213,15 +213,16 @@ theorem parseInstantiationArgument_sound_step (pf : Nat)
         obtain ⟨name, st1, hname, t2, st2, ⟨h2, rfl, rfl⟩, e, st3, he, h4⟩ := h
         cases h4
         obtain ⟨hs3, hl3, hm3⟩ := ihE _ _ _ he
-        have l1 := len_of_peekTok hk
         rcases hname with ⟨hn, rfl, rfl⟩ | ⟨hn, rfl, rfl⟩
-        · have l2 := len_of_peekTok h2
+        · have l1 := len_of_nextTok hn
+          have l2 := len_of_nextTok h2
           refine ⟨hs3.trans ((Suf.adv _).trans (Suf.adv _)), by omega, ?_⟩
           intro gf hgf
           obtain ⟨g, rfl⟩ : ∃ g, gf = g + 1 := ⟨gf - 1, by omega⟩
           simp [gArg, hn, h2, mem_gId, mem_gString, and_assoc, eraseArg, eraseArgName, erase_identAt]
           exact hm3 g (by omega)
-        · have l2 := len_of_peekTok h2
+        · have l1 := len_of_nextTok hn
+          have l2 := len_of_nextTok h2
           refine ⟨hs3.trans ((Suf.adv _).trans (Suf.adv _)), by omega, ?_⟩
           intro gf hgf
           obtain ⟨g, rfl⟩ : ∃ g, gf = g + 1 := ⟨gf - 1, by omega⟩
@@ -231,7 +232,7 @@ theorem parseInstantiationArgument_sound_step (pf : Nat)
         simp only [Except.bind_eq_ok, Prod.exists, parseIdent_eq_ok] at h
         obtain ⟨id, st1, ⟨h1, rfl, rfl⟩, h2⟩ := h
         cases h2
-        have l1 := len_of_peekTok h1
+        have l1 := len_of_nextTok h1
         refine ⟨Suf.adv _, by omega, ?_⟩
         intro gf hgf
         obtain ⟨g, rfl⟩ : ∃ g, gf = g + 1 := ⟨gf - 1, by omega⟩
